@@ -22,11 +22,23 @@
     the plan makes (single read of the geometry).  The specification side never looks at
     the cell size: it demands that the output is self-consistent — the documented
     effective method's shape, s x v x bytes-per-pixel, strips stitching to the pixels at
-    the transmitted resolution — whatever the environment did meanwhile. *)
+    the transmitted resolution — whatever the environment did meanwhile.
+
+    Round 4 (b): (1) every case carries a frame record (model/GfxFrames.v): whether the
+    instance shares a PIL object, the history of seek() / foreign moves of that object /
+    iterator runs / earlier renders, image.tell() just before this render and the index of
+    the source frame whose pixels the decoded payload carries.  Specification: that index is
+    [tell]; model: the code's render after this history sends it and [tell] is what the
+    history says.  (2) the payload of every command as ONE base64 text: its length, the
+    number of characters from the first '=' to the end, and whether it is
+    [alphabet]*[=]* — specification (model/B64Blocks.v, [b64_wf]): length a multiple of 4,
+    padding only at the very end (at most 2), decoded length = 3 * length / 4 - padding;
+    this is what excludes a payload assembled from separately encoded blocks, whatever its
+    size (the sizes themselves — 2^16, 3 * 2^18, 2^20, 2^21 ... +-1 — come as Z). *)
 From Coq Require Import String.
 From Coq Require Import List ZArith Bool Arith DecimalString.
 Import ListNotations.
-From TI Require Import gen.Consts model.KittyChunks model.GfxPlan.
+From TI Require Import gen.Consts model.KittyChunks model.GfxPlan model.GfxFrames.
 
 Local Open Scope nat_scope.
 
@@ -74,6 +86,19 @@ Definition of_item (i : item unit) : oitem :=
 (** base64 length of n bytes (RFC 4648 with padding) — used only for level 0, where the
     payload length is known without running zlib *)
 Definition b64len (n : nat) : nat := 4 * ((n + 2) / 3).
+
+(** the same on Z (payloads of megabytes) *)
+Definition b64lenZ (k : Z) : Z := (4 * ((k + 2) / 3))%Z.
+
+(** ONE base64 text, from its shape: [len] characters, [pad] of them from the first '=' to
+    the end, [alpha] = the text is [A-Za-z0-9+/]*=* — well-formed iff the length is a
+    multiple of 4 and the padding is at most 2 characters (hence at the very end only);
+    it then decodes to 3 * len / 4 - pad bytes *)
+Record b64shape := { b_len : Z; b_pad : Z; b_alpha : bool }.
+Definition shape_wf (b : b64shape) : bool :=
+  b_alpha b && (0 <=? b_len b)%Z && (b_len b mod 4 =? 0)%Z && (0 <=? b_pad b)%Z && (b_pad b <=? 2)%Z
+  && (b_pad b <=? b_len b)%Z.
+Definition shape_declen (b : b64shape) : Z := (3 * (b_len b / 4) - b_pad b)%Z.
 
 (** lengths of the transmissions' payloads, by grouping the observed chunks: a chunk
     with keys opens a transmission *)
@@ -174,7 +199,9 @@ Record kcase := {
   kc_pix : bool;             (* stitched decoded bytes = expected pixels at (s, sum v) *)
   kc_lex : bool;             (* the output lexed completely into known sequences *)
   kc_fill : bool;            (* every fill is [ECH cols unless mix] CUF cols *)
-  kc_keep : bool             (* image.size unchanged, no exception *)
+  kc_keep : bool;            (* image.size unchanged, no exception *)
+  kc_b64 : list b64shape;    (* the reassembled payload of each transmission as one base64 text *)
+  kc_fr : frec               (* which frame: history, image.tell(), frame carried *)
 }.
 
 Definition n (z : Z) : nat := Z.to_nat z.
@@ -229,7 +256,10 @@ Definition kitty_ok_model (c : kcase) : bool :=
   && Nat.eqb (kc_other_reads c) 0
   && (negb (kc_level c =? 0)
       || forallb2 (fun l r => Z.eqb l (Z.of_nat (b64len (n r))))
-                  (group_lens (kc_items c) None) (kc_rawlen c)).
+                  (group_lens (kc_items c) None) (kc_rawlen c))
+  (* the text reassembled from the chunks is the one the chunk lengths add up to *)
+  && forallb2 (fun l b => Z.eqb l (b_len b)) (group_lens (kc_items c) None) (kc_b64 c)
+  && frames_ok_model (kc_fr c).
 
 Definition kitty_ok_spec (c : kcase) : bool :=
   let txs := group_tx (kc_items c) None in
@@ -238,7 +268,11 @@ Definition kitty_ok_spec (c : kcase) : bool :=
   let ntx := match sm with Lines => n (kc_rh c) | _ => 1 end in
   kc_lex c && kc_keep c && kc_pix c
   && Nat.eqb (length txs) ntx
-  && forallb2 (spec_tx (kc_rw c) rows (kc_z c)) txs (kc_rawlen c).
+  && forallb2 (spec_tx (kc_rw c) rows (kc_z c)) txs (kc_rawlen c)
+  (* each transmission's reassembled payload is one well-formed base64 text *)
+  && Nat.eqb (length (kc_b64 c)) ntx && forallb shape_wf (kc_b64 c)
+  (* the pixels are those of frame image.tell() *)
+  && frames_ok_spec (kc_fr c).
 
 Definition check_kitty (c : kcase) : nat :=
   (if kitty_ok_model c then 0 else 1) + (if kitty_ok_spec c then 0 else 2).
@@ -253,7 +287,8 @@ Record ucase := {
   u_len : Z;                 (* payload length before compression *)
   u_items : list oitem;
   u_rawok : bool;            (* decode(+decompress) of the reassembled chunks = payload *)
-  u_lex : bool
+  u_lex : bool;
+  u_b64 : b64shape           (* the reassembled payload as one base64 text *)
 }.
 
 Definition unit_ctrl (level : nat) : ctrl :=
@@ -272,7 +307,7 @@ Definition unit_ok_model (c : ucase) : bool :=
 
 Definition unit_ok_spec (c : ucase) : bool :=
   let size := if u_default c then 4096%Z else u_size c in
-  u_lex c && u_rawok c
+  u_lex c && u_rawok c && shape_wf (u_b64 c)
   && match group_tx (u_items c) None with
      | [(keys, cs)] => spec_wf size ((size mod 4 =? 0)%Z) cs && key_is "a" (KChr 84) keys
      | _ => false
@@ -288,7 +323,8 @@ Record orec := {
   o_keys : list Z;           (* size width height preserveAspectRatio inline doNotMoveCursor; -1 = absent *)
   o_declen : Z;              (* length of the base64-decoded payload, -1 = undecodable *)
   o_kind : nat;              (* 0 PNG, 1 JPEG, 2 other image format, 9 not an image *)
-  o_w : Z; o_h : Z; o_rgba : bool
+  o_w : Z; o_h : Z; o_rgba : bool;
+  o_b64 : b64shape           (* the payload as one base64 text *)
 }.
 
 Record icase := {
@@ -300,7 +336,8 @@ Record icase := {
   (* observed *)
   ic_oscs : list orec;
   ic_untouched : bool;       (* the payload is byte-for-byte the source file *)
-  ic_pix : bool; ic_lex : bool; ic_nl : nat; ic_keep : bool
+  ic_pix : bool; ic_lex : bool; ic_nl : nat; ic_keep : bool;
+  ic_fr : frec               (* as kc_fr *)
 }.
 
 Definition num_string (k : nat) : string := NilZero.string_of_uint (N.to_uint (N.of_nat k)).
@@ -329,6 +366,9 @@ Definition iterm2_ok_model (c : icase) : bool :=
       Nat.eqb (o_kind o) (if jpeg then 1 else 0) && Z.eqb (o_w o) (Z.of_nat ww)
       && Z.eqb (o_h o) (Z.of_nat hh) && Bool.eqb (o_rgba o) rgba in
   Nat.eqb (ic_nl c) (rh - 1)
+  && frames_ok_model (ic_fr c)
+  (* the whole data encoded at once: |payload| = 4 * ceil(|data| / 3) *)
+  && forallb (fun o => (o_declen o <? 0)%Z || Z.eqb (b_len (o_b64 o)) (b64lenZ (o_declen o))) (ic_oscs c)
   (* the geometry comes from ONE read of the cell size; the read-from-file gate makes one
      more when its first four conjuncts hold; no other environment read *)
   && Nat.eqb (length (ic_reads c)) (ip_cell_reads p) && Nat.eqb (ic_other_reads c) 0
@@ -357,12 +397,15 @@ Definition iterm2_ok_spec (c : icase) : bool :=
   let cnt := if lines then n (ic_rh c) else 1 in
   let rgba := out_rgba (ic_alpha c) (ic_mode_class c =? 0) in
   ic_lex c && ic_keep c && ic_pix c
+  && frames_ok_spec (ic_fr c)
   && Nat.eqb (length (ic_oscs c)) cnt
   && forallb (fun o =>
         match o_keys o with
         | [size; width; height; par; inline; _] =>
             (0 <=? o_declen o)%Z && (size =? o_declen o)%Z && (width =? ic_rw c)%Z
             && (height =? rows)%Z && (par =? 0)%Z && (inline =? 1)%Z
+            (* one well-formed base64 text of size= bytes *)
+            && shape_wf (o_b64 o) && (shape_declen (o_b64 o) =? size)%Z
         | _ => false
         end) (ic_oscs c)
   (* the untouched source file only under the documented conditions *)
